@@ -3,10 +3,12 @@
 use crate::report::Tier;
 use serde_json::Value;
 
+pub mod c13;
 pub mod c20;
 
 pub fn run(id: &str, tier: Tier) -> i32 {
     match id {
+        "C13" => c13::run(tier),
         "C20" => c20::run(tier),
         _ => crate::util::machinery_error(&format!("no check for property {id}")),
     }
@@ -16,6 +18,7 @@ pub fn run(id: &str, tier: Tier) -> i32 {
 /// has a `violation` member (null when the case does not violate).
 pub fn replay(id: &str, case: &Value) -> Value {
     match id {
+        "C13" => c13::replay(case),
         "C20" => c20::replay(case),
         _ => crate::util::machinery_error(&format!("no replay for property {id}")),
     }
